@@ -324,6 +324,24 @@ def run(ctx):
     check_typedlist_pack(ctx, "R2.7")
 
 
+
+
+    # ------------------------------------------------------------------ R2.8 a descriptor frame is taken as it is written
+    ctx.rule("R2.8", "RecordDescriptor._unpack hands the name and the field list of the frame to the constructor unchanged: record frames carry the identifier "
+                     "computed by the WRITER over the definition as written, so a reader that rewrites type names (alias upgrades, normalisation) computes "
+                     "another identifier and cannot find the descriptor of the records that follow")
+    du8 = ctx.anchor_func("flow.record.base.RecordDescriptor._unpack")
+    dp8 = func_params(du8)
+    rets8 = [r for r in walk_no_nested(du8) if isinstance(r, ast.Return) and r.value is not None]
+    ctx.floor("R2.8", "returns of RecordDescriptor._unpack", len(rets8), 1)
+    for rt in rets8:
+        v = rt.value
+        okv = isinstance(v, ast.Call) and [norm(a) for a in v.args] == dp8[-2:] and not v.keywords and norm(v.func) in ("RecordDescriptor", "cls", dp8[0])
+        ctx.check(okv, "R2.8", "RecordDescriptor._unpack:arguments", f"`return {norm(v)[:70]}` does not pass ({', '.join(dp8[-2:])}) through unchanged", rt,
+                  f"RecordDescriptor({', '.join(dp8[-2:])})", key="R2.8:RecordDescriptor._unpack:definition-rewritten")
+
+
+
 def _try_fold(prog, module, e):
     try:
         return prog.fold(module, e)
